@@ -36,6 +36,39 @@ var c11RuleSets = [][]string{
 	{"chain-aaa,chain-ccc,NFT"},
 }
 
+// c11NearMissField draws a rule field around the real identifier x: the identifier, the
+// wildcard, or a look-alike that differs from it by one character at either end.
+func c11NearMissField(c *core.Ctx, xs ...string) string {
+	ch := c.Ch
+	x := xs[ch.Int(len(xs))]
+	switch ch.Int(8) {
+	case 0, 1, 2:
+		return x
+	case 3:
+		return "*"
+	case 4:
+		return x[1:] // a suffix of the real name
+	case 5:
+		return x[:len(x)-1] // a prefix of the real name
+	case 6:
+		return "x" + x
+	default:
+		return x + "x"
+	}
+}
+
+// c11NearMissRules draws a rule set of 2-4 rules over the real chains and ports and their
+// one-character look-alikes, so that "almost matching" rules sit first, last and in the
+// middle of multi-rule sets.
+func c11NearMissRules(c *core.Ctx, a, b string) []string {
+	n := 2 + c.Ch.Int(3)
+	var out []string
+	for i := 0; i < n; i++ {
+		out = append(out, c11NearMissField(c, a, b)+","+c11NearMissField(c, a, b)+","+c11NearMissField(c, "NFT", "MT"))
+	}
+	return out
+}
+
 func runC11(c *core.Ctx, crashes bool) {
 	ch := c.Ch
 	w, e := buildTraffic(c, 3, world.DefaultClientParams())
@@ -48,6 +81,14 @@ func runC11(c *core.Ctx, crashes bool) {
 	uni := scen.DefaultUniverse()
 	uni.BadReceiverPct = 25
 	e.SeedTokens(uni, 3)
+	if ch.Int(3) == 1 {
+		rules = c11NearMissRules(c, A.Name, C.Name)
+		c.Check(w.SetRules(B, rules))
+		_, err := w.Block(B, nil, world.NoCrash)
+		c.Check(err)
+		w.Stats.Inc("near-miss-rule-set")
+		w.Log.Add("rules now %q", rules)
+	}
 	relayed, refusedByRelay := 0, 0
 
 	e.OnRelayTx = func(s *scen.Sent, n *world.Node, r *world.TxResult, before map[string]string) {
@@ -181,6 +222,10 @@ func runC11(c *core.Ctx, crashes bool) {
 				continue
 			}
 			nr := c11RuleSets[ch.Int(len(c11RuleSets))]
+			if ch.Int(3) == 1 {
+				nr = c11NearMissRules(c, A.Name, C.Name)
+				w.Stats.Inc("near-miss-rule-set")
+			}
 			msg := &routingtypes.MsgSetRoutingRules{Title: "t", Description: "d", Rules: nr, Authority: world.GovAuthority()}
 			g, err := w.GovExec(B, []sdk.Msg{msg}, "rules")
 			c.Check(err)
